@@ -138,6 +138,7 @@ pub fn run(args: &Args) {
     let paths = [
         "cpu48", "cpu128", "cpu128_c000_bank5", "cpu128_shadow", "ldir48", "fastload48", "sna48", "sna128",
         "sna128_shadow", "szx48", "szx128_compressed", "szx128_shadow", "scr48", "scr128", "poke48", "poke128_shadow",
+        "fastload128_c000_bank5", "fastload128_shadow",
     ];
     for round in 0..rounds {
         for (pi, path) in paths.iter().enumerate() {
@@ -197,6 +198,23 @@ pub fn run(args: &Args) {
                     cpu.regs.set_sp(0x5BFE);
                     cpu.regs.set_pc(0x5B80);
                     assert!(run_to(&mut emu, 0x5B83, 50));
+                }
+                "fastload128_c000_bank5" | "fastload128_shadow" => {
+                    // the 48K BASIC ROM (ROM 1) is paged in for the trap; the block goes through the window at 0xC000
+                    // into the screen bank that is displayed (bank 5, or bank 7 with the shadow screen selected)
+                    let latch = 0x10 | if shadow { 7 | 8 } else { 5 };
+                    cpu_out(&mut emu, 0x7FFD, latch);
+                    let blk = good_block(0xFF, &scr);
+                    emu.load_tape(Tape::Tap(DynAsset::mem(tap_bytes(&[blk])))).unwrap();
+                    poke_bytes(&mut emu, 0x5B80, &[0xCD, 0x56, 0x05]);
+                    let cpu = emu.verif_cpu();
+                    cpu.regs.set_af(0xFF01);
+                    cpu.regs.set_ix(0xC000);
+                    cpu.regs.set_de(6912);
+                    cpu.regs.set_sp(0x5BFE);
+                    cpu.regs.set_pc(0x5B80);
+                    assert!(run_to(&mut emu, 0x5B83, 50));
+                    cpu_out(&mut emu, 0x7FFD, if shadow { 8 } else { 0 });
                 }
                 "sna48" => {
                     let d = desc_with_screen(false, &scr, false, &mut r);
